@@ -24,7 +24,7 @@ impl Visit for VBfs<'_> {
         run_bfs::<G>(self.0, self.1)
     }
 }
-struct VUnmerged<'a>(&'a Ctx, &'a mut Collector, bool);
+struct VUnmerged<'a>(&'a Ctx, &'a mut Collector, Option<(usize, usize)>);
 impl Visit for VUnmerged<'_> {
     type Out = ();
     fn go<G: Cfg>(self) {
@@ -128,18 +128,19 @@ fn run_bfs<G: Cfg>(ctx: &Ctx, total: &mut Collector) {
     );
 }
 
-fn run_unmerged<G: Cfg>(ctx: &Ctx, total: &mut Collector, every_type: bool) {
+fn run_unmerged<G: Cfg>(ctx: &Ctx, total: &mut Collector, replay_bounds: Option<(usize, usize)>) {
     let name = G::name();
     let sub = format!("unmerged/{name}");
     if !is_full(&name) || !ctx.wants(&sub) {
         return;
     }
     // quick: the four types that cover {no hue, hue} x {phantom parameter, none} x {1, 3 components}
-    if !every_type && ctx.tier == Tier::Quick && !["Rgb", "Hsv", "Luma", "Cam16Jch"].contains(&name.trim_end_matches("+alpha")) {
+    if replay_bounds.is_none() && ctx.tier == Tier::Quick && !["Rgb", "Hsv", "Luma", "Cam16Jch"].contains(&name.trim_end_matches("+alpha")) {
         return;
     }
     let depth = 3;
-    let p = Params { max_len: ctx.tier.pick(5, 6), ncol: ctx.tier.pick(2, 3), level: Level::Reduced, predict_model_panics: true };
+    let (max_len, ncol) = replay_bounds.unwrap_or((ctx.tier.pick(5, 6), ctx.tier.pick(2, 3)));
+    let p = Params { max_len, ncol, level: Level::Reduced, predict_model_panics: true };
     let (c1, merged) = bfs::<G>(&sub, &p, ctx.seed);
     let (c2, un) = unmerged::<G>(&sub, &p, depth);
     // sequences that diverge from the Vec are reported by their own signature and not extended,
@@ -154,7 +155,7 @@ fn run_unmerged<G: Cfg>(ctx: &Ctx, total: &mut Collector, every_type: bool) {
         &sub,
         true,
         &format!(
-            "all operation sequences of length <= {depth} from the empty container over the reduced alphabet ({} colours; drains with scripts drop/next/next_back/exhaust/alternate/forget; no merging, each sequence replayed from scratch), plus the merged BFS over the same alphabet; both must reach the same canonical states at the same depths",
+            "all operation sequences of length <= {depth} from the empty container over the reduced alphabet ({} colours; every valid range of every form + an inverted and an out-of-range one for drain and get_mut(range); drains consumed by drop / next / next_back / exhaust / forget after 0 or 1 steps; no merging, each sequence replayed from scratch), plus the merged BFS over the same alphabet; both must reach the same canonical states at the same depths",
             p.ncol
         ),
     );
@@ -292,7 +293,7 @@ fn replay(ctx: &Ctx, c: &mut Collector, rep: &Value) {
     let cfg = case["cfg"].as_str().unwrap_or("").to_string();
     if case["sub"] == "unmerged" {
         // the reachable-set cross-check: re-run it for that configuration
-        if dispatch(&cfg, VUnmerged(ctx, c, true)).is_none() {
+        if dispatch(&cfg, VUnmerged(ctx, c, Some((case["max_len"].as_u64().unwrap_or(5) as usize, case["ncol"].as_u64().unwrap_or(2) as usize)))).is_none() {
             eprintln!("replay: unknown type config {cfg}");
             std::process::exit(3);
         }
@@ -325,7 +326,7 @@ fn real_main() -> i32 {
         let _ = dispatch(&name, VBfs(&ctx, &mut total));
     }
     for name in all_names() {
-        let _ = dispatch(&name, VUnmerged(&ctx, &mut total, false));
+        let _ = dispatch(&name, VUnmerged(&ctx, &mut total, None));
     }
     total.note("type_configs", json!(all_names()));
     let run: Vec<String> = all_names().into_iter().filter(|n| ctx.wants(&format!("bfs/{n}")) || ctx.wants(&format!("basic/{n}")) || ctx.wants(&format!("unmerged/{n}"))).collect();
